@@ -237,6 +237,11 @@ def rule_seeding(ctx, p, cfg, rid="Z3"):
             else:
                 r.fail("seed-unrecognised#%d" % n, fn=g, detail="seed %s is neither 0 nor metadata().len() of the opened file" % show(e, 5))
         r.require(covered_false, "existing-bytes-counted", fn=g, detail="whenever the file is not truncated the seed is the file's size")
+        # the file's length is changed by nothing but the open flags modelled above: an explicit resize or a write through the raw
+        # handle inside the opener would make the seed describe a file that no longer exists in that form
+        resize = [c for c in g.calls() if c.callee in ("std::fs::File::set_len", "std::io::Seek::seek", "std::io::Seek::rewind", "std::io::Write::write", "std::io::Write::write_all", "std::fs::write", "std::fs::remove_file")]
+        r.require(not resize, "length-changed-only-by-the-open-flags", fn=g, site=(resize[0].at if resize else None), detail="resizing/writing calls in the opener: %d" % len(resize),
+                  fail_detail="the opener calls %s: the file's length changes outside the open flags the seed is derived from, so the seeded size need not be the file's size" % (resize[0].callee if resize else ""))
         md = g.calls("std::fs::File::metadata")
         for c in md:
             r.require(common.result_is_checked(g, c), "metadata-error-propagated", fn=g, site=c.at, detail="metadata() failure is propagated")
